@@ -45,6 +45,9 @@ var c12Universe = []string{
 	"x => x", "x => x + 1", "func(a, b) {a}", "y => y", "min", "max", "quote(1)", "quote(a + b)", "quote(1 + 1)",
 	"[x => x]", "{1: x => x}", "[quote(1)]", "[max]",
 	"1 << 62", "3", "-2", "2.5", "-1.5", `"1"`, "[0]", "[0.0]", "[-0.0]",
+	// values that share storage with one another (slices and ranges of one long array / large map, see c12Build), next to the
+	// literals [1, ..., 9] and {1: 1, ..., 5: 5} above that equal two of them
+	"zl", "zl[0:9]", "zl[0:10]", "zl[1:10]", "zl[0:8]", "rest(zl)", "[zl[0:9]]", "zm", "zm[0:5]", "zm[0:6]", "rest(zm)", "zm[1:7]", "{1: zm[0:5]}", "[zm, zl]",
 	// closures with the same text over different captured values
 	"(n => (x => x + n))(1)", "(n => (x => x + n))(2)", "[(n => (x => x + n))(1)]", "{1: (n => (x => x + n))(2)}",
 	// large maps whose integer keys are further apart than 2^63, written in different orders (equal by construction, see c12SamePairs)
@@ -55,7 +58,11 @@ var c12Universe = []string{
 }
 
 // c12SamePairs are universe entries that denote the same value written differently: they must be Equals and order-equivalent.
+// c12Setup binds what the universe entries refer to.
+const c12Setup = "a = 1; b = 2; zl = [1, 2, 3, 4, 5, 6, 7, 8, 9, 10, 11, 12]; zm = {1: 1, 2: 2, 3: 3, 4: 4, 5: 5, 6: 6, 7: 7, 8: 8}"
+
 var c12SamePairs = [][2]string{
+	{"zl[0:9]", "[1, 2, 3, 4, 5, 6, 7, 8, 9]"}, {"zm[0:5]", "{1: 1, 2: 2, 3: 3, 4: 4, 5: 5}"}, {"zl[0:8]", "[1, 2, 3, 4, 5, 6, 7, 8]"},
 	{"{-5: 1, -4: 2, -3: 3, -2: 4, -1: 5, 9223372036854775807: 6}", "{9223372036854775807: 6, -1: 5, -2: 4, -3: 3, -4: 2, -5: 1}"},
 	{"{-9223372036854775807 - 1: 0, 1: 1, 2: 2, 3: 3, 4: 4, 5: 5}", "{5: 5, 4: 4, 3: 3, 2: 2, 1: 1, -9223372036854775807 - 1: 0}"},
 	{"{-7000000000000000000: 1, -6000000000000000000: 2, -5000000000000000000: 3, 1: 4, 2: 5, 5000000000000000000: 6}", "{5000000000000000000: 6, 2: 5, 1: 4, -5000000000000000000: 3, -6000000000000000000: 2, -7000000000000000000: 1}"},
@@ -98,7 +105,7 @@ func sign(x int) int {
 
 func c12Build(srcs []string) ([]object.Object, []object.Object, string) {
 	ss := newSession(false)
-	ss.eval("a = 1; b = 2", time.Second)
+	ss.eval(c12Setup, time.Second)
 	mk := func() ([]object.Object, string) {
 		out := make([]object.Object, len(srcs))
 		for i, s := range srcs {
@@ -236,7 +243,7 @@ func (p c12) RunBatch(c *fw.Ctx) {
 	}
 	// language level, pairs partitioned
 	ss := newSession(false)
-	ss.eval("a = 1; b = 2", time.Second)
+	ss.eval(c12Setup, time.Second)
 	idx := 0
 	for i := 0; i < n; i++ {
 		for j := 0; j < n; j++ {
@@ -266,7 +273,7 @@ func (p c12) RunBatch(c *fw.Ctx) {
 			if strings.Contains(U[i], "=>") || strings.Contains(U[i], "func") || strings.Contains(U[j], "=>") || strings.Contains(U[j], "func") {
 				continue // min/max spread a trailing array argument and functions are fine but uninteresting here
 			}
-			if strings.HasPrefix(U[j], "[") {
+			if strings.HasPrefix(U[j], "[") || strings.HasPrefix(U[j], "zl") || strings.HasPrefix(U[j], "rest(zl") {
 				continue // a trailing array argument of min/max is spread into separate arguments by design
 			}
 			mm := ss.eval("[min(va, vb) == va, va <= vb, max(va, vb) == vb || vb < va, {va: 1}[vb] != nil, (va <= vb) && (vb <= va)]", time.Second)
